@@ -19,6 +19,7 @@ def main():
     with cf.ThreadPoolExecutor(max_workers=16) as ex:
         for name, meta, res in ex.map(lambda n: seedtest.run_seed(n, None, True), names):
             own = meta.get('breaks', [])
+            undecided = bool(meta.get('not_decided'))
             caught = sorted(p for p, (rc, _l) in res.items() if rc == 1)
             errs = sorted(p for p, (rc, _l) in res.items() if rc == 2)
             rule = ''
@@ -28,11 +29,11 @@ def main():
                     if m:
                         rule = f'{m.group(1)} @ {m.group(2).rstrip(":")}'
                         break
-            rows.append((name, own, caught, errs, rule))
+            rows.append((name, own, caught, errs, rule if not undecided else 'NOT DECIDED (out of reach, see meta.json)'))
     out = ['| seeded change | written against | caught by | rule firing in its own check |', '|---|---|---|---|']
     bad = 0
     for name, own, caught, errs, rule in rows:
-        ok = all(p in caught for p in own)
+        ok = all(p in caught for p in own) or 'NOT DECIDED' in rule
         bad += 0 if ok else 1
         out.append(f'| {name} | {" ".join(own)} | {" ".join(caught) or "-"}{(" (analysis error: " + " ".join(errs) + ")") if errs else ""} | {rule[:90] or ("MISSED" if not ok else "")} |')
     open(os.path.join(HERE, 'seeded', 'TABLE.md'), 'w').write('\n'.join(out) + '\n')
